@@ -408,7 +408,7 @@ def run(check: core.Check) -> None:
     # 3. beyond the exhaustive bound: TLC simulation of 2-4 overloads with every feature on
     num = 1500 if quick else 20000
     sim = core.require_ok(
-        core.run_tlc("OverloadsEmit", "Overloads.sim.cfg", workers=1 if quick else 4, simulate=f"num={num}", depth=40,
+        core.run_tlc("OverloadsEmit", "Overloads.sim.cfg", workers=1, simulate=f"num={num}", depth=40,
                      seed=check.seed + 8, timeout=2400),
         "Overloads simulate",
     )
